@@ -473,7 +473,20 @@ struct RunOut {
     /// the first moment of the run (see `FilterProbe`) at which the store's own `exists` / `get`
     /// denied a key that its slabs held
     filter_probe: Option<FilterProbe>,
+    /// per `emb:` key of the programs: the number of LIVE entries the entity index holds for it once
+    /// every thread has finished (`EntityIndex::scan_prefix`, entries whose key is exactly the key)
+    live_ids: BTreeMap<Key, usize>,
 }
+
+/// the live entity ids of one key (Lean: `Index.liveIds`): the entity index read in place
+fn live_ids_of(store: &TensorStore, key: &str) -> usize {
+    store.router().index.scan_prefix(key).iter().filter(|(k, _)| k == key).count()
+}
+
+/// the yield point INSIDE `EntityIndex::try_get_or_create`, between the missed lookup under the read
+/// locks and the write locks (proposed/C11-hook-entity-index-yield.diff; absent from the tree until
+/// that hook is committed: `index_hook_present`)
+const SITE_INDEX_MISS: &str = "index.get_or_create.after_miss";
 
 /// "the filter knows every visible key" (Lean: `BloomProps.filter_knows_every_visible_key`), asked of
 /// the REAL store at every scheduling decision: the scheduler thread, while every worker is parked,
@@ -560,7 +573,12 @@ fn site_key(site: &str, key: &str) -> String {
 /// `exclusive_emb`: the hypothesis of `emb_linearizable_partial` — a thread parked at the entry of
 /// an operation on an `emb:` key is not offered while another thread is inside an operation on the
 /// same key (parked at one of its `router.*` yield points).
-fn run_real(progs: &[Vec<Op>], wal: Option<SyncMode>, variant: u8, crash_at: Option<usize>, respect_lock: bool, exclusive_emb: bool, mut pick: impl FnMut(usize, &[usize], Option<usize>) -> Option<usize>) -> RunOut {
+///
+/// `index_steps`: the yield point inside `try_get_or_create` (`SITE_INDEX_MISS`) is an atomic step of
+/// its own (model: `runi`).  `false`: a thread that parks there is let through at once - nobody
+/// else moves in between, `get_or_create` stays inside the step that called it (model: `run`), and
+/// the step is not recorded.
+fn run_real(progs: &[Vec<Op>], wal: Option<SyncMode>, variant: u8, crash_at: Option<usize>, respect_lock: bool, exclusive_emb: bool, index_steps: bool, mut pick: impl FnMut(usize, &[usize], Option<usize>) -> Option<usize>) -> RunOut {
     let dir = tempfile::tempdir().expect("tempdir");
     let wal_path = dir.path().join("store.wal");
     let cfg = wal.map(|m| WalConfig { sync_mode: m, ..WalConfig::default() });
@@ -611,6 +629,12 @@ fn run_real(progs: &[Vec<Op>], wal: Option<SyncMode>, variant: u8, crash_at: Opt
     let mut filter_probe: Option<FilterProbe> = None;
     let short = |site: &str| site.trim_start_matches("store.").trim_start_matches("router.").trim_end_matches(".after_log").to_string();
     let trace = run_threads(tasks, |_n, parked| {
+        if !index_steps {
+            if let Some(p) = parked.iter().position(|x| x.1 == SITE_INDEX_MISS) {
+                waiting_at.push(waiting.iter().map(|w| w.0).collect());
+                return p;
+            }
+        }
         // a waiter that is parked again has got the mutex and taken its log step: that step ran
         // now, after the last step of the thread that released the mutex
         let mut i = 0;
@@ -762,6 +786,7 @@ fn run_real(progs: &[Vec<Op>], wal: Option<SyncMode>, variant: u8, crash_at: Opt
     let ks = universe(progs);
     let mem_view = view_of(&store, &ks);
     let image = show_view(&mem_view);
+    let live_ids: BTreeMap<Key, usize> = ks.iter().filter(|k| k.cls() == Cls::E).map(|k| (*k, live_ids_of(&store, &k.real()))).collect();
     let mut wal_s = None;
     let mut rimage = None;
     let mut rec_view = BTreeMap::new();
@@ -809,6 +834,7 @@ fn run_real(progs: &[Vec<Op>], wal: Option<SyncMode>, variant: u8, crash_at: Opt
         panicked,
         crash,
         filter_probe,
+        live_ids,
     }
 }
 
@@ -956,6 +982,44 @@ fn classify_nonlin(recs: &[HRec]) -> (String, Option<String>) {
     }
     ("scan".to_string(), None)
 }
+
+/// `IndexProps.deleted_key_is_gone` on a recorded history: a `delete` / `delete_durable` of an `emb:`
+/// key returned Ok, an operation invoked AFTER it had returned still sees the key (`exists` true,
+/// `get` finds a value, a scan lists it, another delete returns Ok) and no put of the key was in
+/// progress or invoked anywhere between the invocation of the delete and the return of that
+/// operation.  No order of the operations explains it; in the code it is what a key with two live
+/// entity ids looks like from outside (the delete tombstones the id `index.get` returns, the other
+/// id keeps the key visible).  Overlapping deletes, gets and scans only remove or read: they do
+/// not excuse it.  Returns (the delete, the operation that still saw the key).
+fn deleted_key_still_visible(recs: &[HRec]) -> Option<(HRec, HRec)> {
+    for d in recs {
+        let k = match d.op {
+            Op::Del(k) | Op::DelD(k) if k.cls() == Cls::E && d.res == Res::Ok => k,
+            _ => continue,
+        };
+        for r in recs {
+            if r.inv <= d.ret {
+                continue;
+            }
+            let sees = match (&r.op, &r.res) {
+                (Op::Ex(k2), Res::Bool(true)) | (Op::Get(k2), Res::Found(_)) | (Op::Del(k2), Res::Ok) | (Op::DelD(k2), Res::Ok) => *k2 == k,
+                (Op::Scan(_), Res::Keys(ks)) => ks.contains(&k),
+                _ => false,
+            };
+            if !sees {
+                continue;
+            }
+            let put_between = recs.iter().any(|q| matches!(q.op, Op::Put(k2, _) | Op::PutD(k2, _) if k2 == k) && q.ret >= d.inv && q.inv <= r.ret);
+            if !put_between {
+                return Some((d.clone(), r.clone()));
+            }
+        }
+    }
+    None
+}
+
+const CLASS_TWO_LIVE_IDS: &str = "tensor_store.entity_index/key_with_two_live_ids";
+const WHAT_TWO_LIVE_IDS: &str = "an emb: key has two live entity ids (EntityIndex::get_or_create gave concurrent first writers of the key an id each): a delete that returned Ok tombstoned one of them, and with no put of the key anywhere in between the key is still visible (exists true / get finds a value no put wrote / the scan lists it / a second delete returns Ok as well)";
 
 /// two operations of different threads on one `emb:` key overlap in time (the situation
 /// `emb_linearizable_partial` excludes; the root cause of the known `emb:` findings)
@@ -1241,6 +1305,9 @@ struct Ctx<'a> {
     /// re-run every case of a store with a Bloom filter on the filter-free store, same step order
     /// (Lean: `BloomProps.bloom_store_transparent`): trace, results, image, log must be the same
     twin_always: bool,
+    /// the yield point inside `try_get_or_create` is a scheduling point (see `run_real`); the model
+    /// is asked with `runi`
+    index_steps: bool,
 }
 
 /// the model command for a store variant: the filtered store has its own step machine
@@ -1265,7 +1332,7 @@ fn step_ops(o: &RunOut, nthreads: usize) -> Vec<(usize, usize)> {
 /// one scripted run (mirror of the log mutex), re-run while the scheduler misses its stall window
 fn scripted(progs: &[Vec<Op>], wal: Option<SyncMode>, variant: u8, sched: &[usize]) -> Option<RunOut> {
     for _ in 0..6 {
-        let o = run_real(progs, wal, variant, None, true, false, |i, _, _| sched.get(i).copied());
+        let o = run_real(progs, wal, variant, None, true, false, false, |i, _, _| sched.get(i).copied());
         if !o.unexplained {
             return Some(o);
         }
@@ -1336,7 +1403,7 @@ impl Ctx<'_> {
         // must be reproduced on every run, also on a loaded machine
         for _attempt in 0..(if sched.is_some() { 12 } else { 3 }) {
             let mut r2 = rng.clone();
-            let o = run_real(progs, wal, self.variant, self.crash_at, !self.real_mutex, self.exclusive_emb, |i, ids, holder| match sched {
+            let o = run_real(progs, wal, self.variant, self.crash_at, !self.real_mutex, self.exclusive_emb, self.index_steps, |i, ids, holder| match sched {
                 Some(s) => s.get(i).copied(),
                 // while somebody waits for the mutex every scheduling decision costs the stall window:
                 // let the holder go on half of the time
@@ -1363,7 +1430,7 @@ impl Ctx<'_> {
         let ps = show_progs(progs);
         // the model is asked about the order of the atomic steps; a replay needs the grants
         let variant = self.variant;
-        let line = format!("{} {} {} {}", run_cmd(variant), if wal.is_some() { 1 } else { 0 }, ps, show_sched(&o.sched));
+        let line = format!("{} {} {} {}", if self.index_steps { "runi" } else { run_cmd(variant) }, if wal.is_some() { 1 } else { 0 }, ps, show_sched(&o.sched));
         let ans = self.model.ask(&line);
         let real_mutex = self.real_mutex;
         let grants_s = show_sched(&o.grants);
@@ -1562,7 +1629,7 @@ impl Ctx<'_> {
     /// blocked thread where it is).  If the mutex were released before the apply (the code before
     /// dfea2ecb) the script executes as written and the durable oracle reports the reversal.
     fn mutex_probe(&mut self, progs: &[Vec<Op>], sched: &[usize]) {
-        let o = run_real(progs, Some(SyncMode::Immediate), 0, None, false, false, |i, _, _| sched.get(i).copied());
+        let o = run_real(progs, Some(SyncMode::Immediate), 0, None, false, false, false, |i, _, _| sched.get(i).copied());
         let line = format!("run 1 {} {}", show_progs(progs), show_sched(sched));
         self.rep.case("probe.log_mutex", Some(&line));
         self.rep.hit(if o.stalled { "probe:second_durable_writer_blocked_on_real_log_mutex" } else { "probe:second_durable_writer_not_blocked" });
@@ -1626,6 +1693,26 @@ impl Ctx<'_> {
         //     CALL (for a durable write that waited for the mutex: the grant, not the log step) to
         //     its last step
         let hist: Vec<HRec> = o.hist.iter().map(|r| HRec { inv: r.call, ..r.clone() }).collect();
+        // (0) the entity index: a key never has two live ids (`IndexProps.get_or_create_never_gives_a_key_
+        //     two_live_ids`, read off the real index once every thread has finished), and a deleted key is
+        //     gone (`deleted_key_is_gone`, judged on the recorded history).  Evaluated first and on its
+        //     own: the history is then ALSO not linearizable, and with two overlapping puts in it the
+        //     classification below would file it under the known `emb:` classes.
+        {
+            let twice: Vec<String> = o.live_ids.iter().filter(|(_, n)| **n > 1).map(|(k, n)| format!("{}: {} live ids", k.show(), n)).collect();
+            let seen = deleted_key_still_visible(&hist);
+            if !twice.is_empty() || seen.is_some() {
+                let detail = json!({
+                    "keys_with_more_than_one_live_id_at_the_end": twice,
+                    "delete_that_returned_ok": seen.as_ref().map(|(d, _)| format!("t{}.{}:{} -> {} (steps {}-{})", d.t, d.i, d.op.show(), d.res.show(), d.inv, d.ret)),
+                    "later_operation_that_still_sees_the_key": seen.as_ref().map(|(_, r)| format!("t{}.{}:{} -> {} (steps {}-{})", r.t, r.i, r.op.show(), r.res.show(), r.inv, r.ret)),
+                    "real_history": o.hist_s, "real_trace": o.trace, "image": o.image,
+                });
+                self.violation(CLASS_TWO_LIVE_IDS, WHAT_TWO_LIVE_IDS, with(base, detail));
+            } else {
+                self.rep.hit("oracle:one_live_id_per_key_and_deleted_key_gone");
+            }
+        }
         if hist.iter().any(|r| matches!(&r.res, Res::Other(m) if m.starts_with("sibling: "))) {
             // already reported by `case` under the class of the sibling scans; the scan has no key list to judge
             return self.durable_oracle(progs, wal, o, base, &[]);
@@ -1832,6 +1919,233 @@ impl Ctx<'_> {
     }
 }
 
+// ------------------------------------------------------------------ first puts of one emb: key by FREE-RUNNING threads
+
+/// What the deterministic scheduler cannot reach while there is no yield point inside
+/// `EntityIndex::try_get_or_create` (`index_hook_present` = false): several threads issue the FIRST put
+/// of one `emb:` key (never put before / put again after a delete) at the same moment, free-running,
+/// lined up on a spin barrier; when all have returned, ONE thread deletes the key and looks for it.
+/// The check after the join is sequential, so every interleaving of the writers must give the same
+/// answers (Lean: `IndexProps.deleted_key_is_gone`, any interleaving at the granularity of the
+/// index's own locks).
+#[derive(Clone, Copy, PartialEq, Eq, Debug)]
+enum StressMode {
+    /// a key nobody has put before (a new key per round)
+    Fresh,
+    /// one key, put again by all writers after the delete of the previous round
+    Recreate,
+    /// as `Fresh` on a store with a log: writer 0 uses `put_durable` (its log step and its apply
+    /// step both call `get_or_create`), the others `put`; the checker deletes durably
+    DurableStore,
+}
+impl StressMode {
+    fn name(self) -> &'static str {
+        match self {
+            StressMode::Fresh => "fresh_key",
+            StressMode::Recreate => "key_deleted_before",
+            StressMode::DurableStore => "fresh_key_durable_store",
+        }
+    }
+    fn of(s: &str) -> Option<StressMode> {
+        [StressMode::Fresh, StressMode::Recreate, StressMode::DurableStore].into_iter().find(|m| m.name() == s)
+    }
+}
+
+struct StressRound {
+    key: Key,
+    /// the writers' programs (one put each) and the checker's program
+    progs: Vec<Vec<Op>>,
+    put_results: Vec<Res>,
+    /// live entity ids of the key after the writers were joined, before the delete
+    live_after_puts: usize,
+    checker: Vec<Res>,
+}
+
+fn stress_programs(mode: StressMode, threads: usize, key: Key) -> Vec<Vec<Op>> {
+    let mut progs: Vec<Vec<Op>> = (0..threads)
+        .map(|t| {
+            let v = Val { tag: t as u32 + 1, vec: VecF::Good(t as u32 + 1) };
+            vec![if mode == StressMode::DurableStore && t == 0 { Op::PutD(key, v) } else { Op::Put(key, v) }]
+        })
+        .collect();
+    let del = if mode == StressMode::DurableStore { Op::DelD(key) } else { Op::Del(key) };
+    progs.push(vec![Op::Ex(key), del, Op::Ex(key), Op::Get(key), Op::Scan(Key::of("emb:")), del]);
+    progs
+}
+
+/// `rounds` rounds of `threads` writers; `stop_at_first`: return as soon as `fails` holds of a round
+fn stress_first_puts(mode: StressMode, threads: usize, rounds: usize, first_id: u32, stop_at_first: bool, fails: &dyn Fn(&StressRound) -> bool) -> Vec<StressRound> {
+    use std::sync::atomic::{AtomicBool, AtomicUsize, Ordering};
+    use std::sync::Barrier;
+    let dir = tempfile::tempdir().expect("tempdir");
+    let store = match mode {
+        StressMode::DurableStore => TensorStore::open_durable(dir.path().join("stress.wal"), WalConfig { sync_mode: SyncMode::Manual, ..WalConfig::default() }).expect("open_durable"),
+        _ => TensorStore::new(),
+    };
+    let key_of = |round: usize| Key::new(Cls::E, if mode == StressMode::Recreate { first_id } else { first_id + round as u32 });
+    let keys: Vec<Key> = (0..rounds).map(key_of).collect();
+    let start = Arc::new(Barrier::new(threads + 1));
+    let done = Arc::new(Barrier::new(threads + 1));
+    let lined_up = Arc::new(AtomicUsize::new(0));
+    let stop = Arc::new(AtomicBool::new(false));
+    let put_results: Arc<Mutex<Vec<Res>>> = Arc::new(Mutex::new(vec![Res::Nf; threads]));
+    let mut workers = Vec::new();
+    for t in 0..threads {
+        let (store, start, done, lined_up, stop, keys, put_results) = (store.clone(), start.clone(), done.clone(), lined_up.clone(), stop.clone(), keys.clone(), put_results.clone());
+        workers.push(std::thread::spawn(move || {
+            for (round, key) in keys.iter().enumerate() {
+                let op = stress_programs(mode, threads, *key)[t][0];
+                start.wait();
+                if stop.load(Ordering::SeqCst) {
+                    return;
+                }
+                // tight line-up: the puts start together
+                lined_up.fetch_add(1, Ordering::SeqCst);
+                let mut spins = 0u32;
+                while lined_up.load(Ordering::SeqCst) < threads * (round + 1) {
+                    std::hint::spin_loop();
+                    spins += 1;
+                    if spins % 4096 == 0 {
+                        std::thread::yield_now();
+                    }
+                }
+                let res = exec(&store, &op);
+                put_results.lock().unwrap()[t] = res;
+                done.wait();
+            }
+            start.wait(); // the release after the last round
+        }));
+    }
+    let mut out = Vec::new();
+    for round in 0..rounds {
+        let key = keys[round];
+        start.wait();
+        done.wait();
+        // every put of this round has returned: from here on one thread, sequentially
+        let progs = stress_programs(mode, threads, key);
+        let live_after_puts = live_ids_of(&store, &key.real());
+        let checker: Vec<Res> = progs[threads].iter().map(|op| exec(&store, op)).collect();
+        let r = StressRound { key, progs, put_results: put_results.lock().unwrap().clone(), live_after_puts, checker };
+        let hit = fails(&r);
+        out.push(r);
+        if hit && stop_at_first {
+            break;
+        }
+    }
+    stop.store(true, std::sync::atomic::Ordering::SeqCst);
+    start.wait();
+    for w in workers {
+        let _ = w.join();
+    }
+    out
+}
+
+/// the round as a history: the puts all overlap (steps 0-1), the checker's operations follow one by one
+fn stress_history(r: &StressRound) -> Vec<HRec> {
+    let n = r.progs.len() - 1;
+    let mut h: Vec<HRec> = (0..n).map(|t| HRec { t, i: 0, op: r.progs[t][0], res: r.put_results[t].clone(), inv: 0, ret: 1, call: 0 }).collect();
+    for (i, (op, res)) in r.progs[n].iter().zip(r.checker.iter()).enumerate() {
+        h.push(HRec { t: n, i, op: *op, res: res.clone(), inv: 2 + 2 * i, ret: 3 + 2 * i, call: 2 + 2 * i });
+    }
+    h
+}
+
+fn stress_fails(r: &StressRound) -> bool {
+    r.live_after_puts > 1 || deleted_key_still_visible(&stress_history(r)).is_some()
+}
+
+/// the model's answer to the same programs (at the granularity of the index's locks, under ONE
+/// interleaving - all lookups first, then the write sections, then the rest; the checker's
+/// answers are the same under every interleaving): the checker's results
+fn stress_model(model: &mut Model, mode: StressMode, threads: usize, key: Key) -> (String, String) {
+    let mut progs = stress_programs(mode, threads, key);
+    let mut sched: Vec<usize> = Vec::new();
+    if mode == StressMode::Recreate {
+        // the key was put and deleted before (the previous round)
+        progs.push(vec![Op::Put(key, Val { tag: 99, vec: VecF::Good(99) }), Op::Del(key)]);
+        sched.extend(std::iter::repeat(threads + 1).take(8));
+    }
+    for _ in 0..6 {
+        sched.extend(0..threads);
+    }
+    sched.extend(std::iter::repeat(threads).take(16));
+    let line = format!("runi {} {} {}", if mode == StressMode::DurableStore { 1 } else { 0 }, show_progs(&progs), show_sched(&sched));
+    let ans = model.ask(&line);
+    let hist = ans.split(" | ").find_map(|p| p.strip_prefix("hist ")).unwrap_or("?");
+    let mut rs: Vec<(usize, String)> = hist
+        .split(',')
+        .filter_map(|e| {
+            let f: Vec<&str> = e.splitn(3, ':').collect();
+            let (t, i) = f.first()?.split_once('.')?;
+            if t.parse::<usize>().ok()? == threads { Some((i.parse().ok()?, f.get(2)?.to_string())) } else { None }
+        })
+        .collect();
+    rs.sort();
+    (line, rs.into_iter().map(|x| x.1).collect::<Vec<_>>().join(","))
+}
+
+impl Ctx<'_> {
+    /// one configuration of the stress stream: `rounds` rounds, every round judged by the oracle on
+    /// the real outputs and compared with the model's checker results; the first failing round is
+    /// re-run with fewer writers (the fewest that still fail within the same number of rounds)
+    fn stress(&mut self, mode: StressMode, threads: usize, rounds: usize, first_id: u32) {
+        let stream = format!("stress.first_puts.{}", mode.name());
+        let rs = stress_first_puts(mode, threads, rounds, first_id, false, &stress_fails);
+        let mut expected: Option<(String, String)> = None;
+        let mut reported = false;
+        for (round, r) in rs.iter().enumerate() {
+            let (line, want) = match &expected {
+                Some(e) if mode == StressMode::Recreate => e.clone(),
+                _ => stress_model(self.model, mode, threads, r.key),
+            };
+            if mode == StressMode::Recreate {
+                expected = Some((line.clone(), want.clone()));
+            }
+            let got = r.checker.iter().map(|x| x.show()).collect::<Vec<_>>().join(",");
+            self.rep.case(&stream, if round == 0 { Some(&line) } else { None });
+            self.rep.hit(&format!("stress:writers:{threads}"));
+            self.rep.hit(&format!("stress:{}", mode.name()));
+            let input = |threads: usize, r: &StressRound, line: &str| {
+                json!({"line": line, "stress": {"mode": mode.name(), "writers": threads, "rounds": rounds},
+                       "what_runs": format!("{threads} free-running threads, lined up on a spin barrier, each put {} once (never put before / deleted in the round before); after they have returned one thread runs: {}", r.key.real(), show_progs(&r.progs[threads..])),
+                       "key": r.key.real(), "round": round,
+                       "puts": show_progs(&r.progs[..threads]), "put_results": r.put_results.iter().map(|x| x.show()).collect::<Vec<_>>().join(","),
+                       "live_entity_ids_of_the_key_after_the_puts": r.live_after_puts,
+                       "checker_results": r.checker.iter().zip(r.progs[threads].iter()).map(|(x, op)| format!("{} -> {}", op.show(), x.show())).collect::<Vec<_>>()})
+            };
+            self.rep.compare(&format!("{stream}.checker_results"), || input(threads, r, &line), &got, &want);
+            if r.put_results.iter().any(|x| *x != Res::Ok) || r.checker.first() != Some(&Res::Bool(true)) || r.checker.get(1) != Some(&Res::Ok) {
+                self.violation(
+                    "tensor_store.slab_router.emb/key_absent_after_completed_puts",
+                    "every concurrent put of the key has returned Ok, yet exists says false or delete says NotFound",
+                    input(threads, r, &line),
+                );
+            }
+            if !stress_fails(r) {
+                self.rep.hit("oracle:one_live_id_per_key_and_deleted_key_gone");
+                continue;
+            }
+            self.rep.hit("stress:round_with_two_live_ids_or_deleted_key_visible");
+            let mut inp = input(threads, r, &line);
+            if !reported {
+                reported = true;
+                // shrink: the fewest writers with which a round still fails
+                for n in 2..threads {
+                    let rs2 = stress_first_puts(mode, n, rounds, first_id + 5000, true, &stress_fails);
+                    if let Some(r2) = rs2.last().filter(|r2| stress_fails(r2)) {
+                        let (l2, _) = stress_model(self.model, mode, n, r2.key);
+                        inp = input(n, r2, &l2);
+                        inp["round"] = json!(rs2.len() - 1);
+                        inp["shrunk_from_writers"] = json!(threads);
+                        break;
+                    }
+                }
+            }
+            self.violation(CLASS_TWO_LIVE_IDS, WHAT_TWO_LIVE_IDS, inp);
+        }
+    }
+}
+
 // ------------------------------------------------------------------ main
 
 fn main() {
@@ -1848,13 +2162,21 @@ fn main() {
         let v: serde_json::Value = serde_json::from_str(&std::fs::read_to_string(path).unwrap_or_default()).unwrap_or(json!({}));
         let line = v["failing_input"]["line"].as_str().unwrap_or("").to_string();
         let f: Vec<&str> = line.split(' ').collect();
-        if f.len() == 4 {
+        if let Some(mode) = v["failing_input"]["stress"]["mode"].as_str().and_then(StressMode::of) {
+            // a round of the stress stream (free-running threads: the race is not scripted) - the same
+            // configuration is run again for the same number of rounds
+            let writers = v["failing_input"]["stress"]["writers"].as_u64().unwrap_or(8).clamp(2, 16) as usize;
+            let rounds = v["failing_input"]["stress"]["rounds"].as_u64().unwrap_or(300).clamp(1, 100_000) as usize;
+            let mut ctx = Ctx { rep: &mut rep, model: &mut model, viol_count: BTreeMap::new(), budget_hits: 0, stalls: 0, exclusive_emb: false, real_mutex: false, variant: 0, scan_observed: 0, crash_at: None, cur_wal: None, twin_differs: None, twin_history_differs: false, twin_always: false, index_steps: false };
+            ctx.stress(mode, writers, rounds, 1000);
+            println!("stress {} writers={writers} rounds={rounds}: rounds that failed the oracle: {}", mode.name(), ctx.viol_count.get(CLASS_TWO_LIVE_IDS).copied().unwrap_or(0));
+        } else if f.len() == 4 {
             if let Some(progs) = parse_progs(f[2]) {
                 let real_mutex = v["failing_input"]["mutex"].as_str() == Some("real");
                 let sched = parse_sched(if real_mutex { v["failing_input"]["grants"].as_str().unwrap_or(f[3]) } else { f[3] });
                 // the store of the failing run: `runb` = built with a Bloom filter; `store_variant` as in `run_real`
                 let variant = (v["failing_input"]["store_variant"].as_u64().unwrap_or(0) as u8 & 3) | u8::from(f[0] == "runb");
-                let mut ctx = Ctx { rep: &mut rep, model: &mut model, viol_count: BTreeMap::new(), budget_hits: 0, stalls: 0, exclusive_emb: false, real_mutex, variant, scan_observed: 0, crash_at: None, cur_wal: None, twin_differs: None, twin_history_differs: false, twin_always: true };
+                let mut ctx = Ctx { rep: &mut rep, model: &mut model, viol_count: BTreeMap::new(), budget_hits: 0, stalls: 0, exclusive_emb: false, real_mutex, variant, scan_observed: 0, crash_at: None, cur_wal: None, twin_differs: None, twin_history_differs: false, twin_always: true, index_steps: v["failing_input"]["line"].as_str().map_or(false, |l| l.starts_with("runi ")) };
                 let mut r = root.fork("replay");
                 let wal = if f[1] == "1" { Some(SyncMode::Immediate) } else { None };
                 if let Some(o) = ctx.case("replay", &progs, wal, Some(&sched), &mut r, true) {
@@ -1867,9 +2189,95 @@ fn main() {
     }
 
     let scale: u64 = if args.thorough { 12 } else { 1 };
-    let mut ctx = Ctx { rep: &mut rep, model: &mut model, viol_count: BTreeMap::new(), budget_hits: 0, stalls: 0, exclusive_emb: false, real_mutex: false, variant: 0, scan_observed: 0, crash_at: None, cur_wal: None, twin_differs: None, twin_history_differs: false, twin_always: false };
+    let mut ctx = Ctx { rep: &mut rep, model: &mut model, viol_count: BTreeMap::new(), budget_hits: 0, stalls: 0, exclusive_emb: false, real_mutex: false, variant: 0, scan_observed: 0, crash_at: None, cur_wal: None, twin_differs: None, twin_history_differs: false, twin_always: false, index_steps: false };
 
-    // ---- FIRST: stores built WITH a Bloom filter (`with_bloom_filter`, `with_bloom_and_instrumentation`,
+    // ---- FIRST: the entity index under concurrent FIRST puts of one `emb:` key (a key nobody has put
+    //      before, or the first put after a delete).  `EntityIndex::try_get_or_create` looks the key up
+    //      under the read locks and, when that missed, takes the write locks and LOOKS AGAIN before it
+    //      appends: the double-check is the only thing between two such writers and a key with two
+    //      live entity ids (Lean: `IndexProps.get_or_create_never_gives_a_key_two_live_ids`,
+    //      `get_or_create_without_recheck_witness`).  The shortest history in which it shows: both
+    //      lookups before either write section, every put returns, then delete -> Ok, exists -> true.
+    //      (a) scheduled, when the tree has the yield point inside `try_get_or_create`: the witness
+    //      interleavings of the model and their neighbours at the granularity of the index's locks;
+    //      (b) always: free-running threads lined up on the first put (the race itself, not scripted).
+    {
+        let hook = {
+            let k = Key::new(Cls::E, 1);
+            let o = run_real(&[vec![Op::Put(k, Val { tag: 1, vec: VecF::Good(1) })]], None, 0, None, true, false, true, |_, ids, _| ids.first().copied());
+            o.steps.iter().any(|s| s.1 == SITE_INDEX_MISS)
+        };
+        ctx.rep.hit(if hook { "hook:index.get_or_create.after_miss:present" } else { "hook:index.get_or_create.after_miss:absent" });
+        let g = |t: u32| Val { tag: t, vec: VecF::Good(t) };
+        if hook {
+            ctx.index_steps = true;
+            let mut r = root.fork("directed.index");
+            let e1 = Key::new(Cls::E, 1);
+            let checker = vec![Op::Ex(e1), Op::Del(e1), Op::Ex(e1), Op::Get(e1), Op::Scan(Key::of("emb:")), Op::Del(e1)];
+            for name in ["two_first_puts", "recreate"] {
+                let w = ctx.model.ask(&format!("witness {name}"));
+                let f: Vec<&str> = w.split(' ').collect();
+                match (f.get(1).and_then(|p| parse_progs(p)), f.len() == 3) {
+                    (Some(mut progs), true) => {
+                        // the witness interleaving, then - every writer has returned - the sequential check
+                        let c = progs.len();
+                        progs.push(checker.clone());
+                        let mut sched = parse_sched(f[2]);
+                        sched.extend(std::iter::repeat(c).take(8));
+                        let before = ctx.viol_count.get(CLASS_TWO_LIVE_IDS).copied().unwrap_or(0);
+                        match ctx.case(&format!("witness.{name}"), &progs, None, Some(&sched), &mut r, true) {
+                            Some(_) => {
+                                let after = ctx.viol_count.get(CLASS_TWO_LIVE_IDS).copied().unwrap_or(0);
+                                ctx.rep.hit(&format!("{}:{name}", if after > before { "witness_reproduced_on_real_store" } else { "witness_not_reproduced_on_real_store" }));
+                            }
+                            None => ctx.rep.disagree("witness.stalled", json!({"witness": name}), "scheduler stalled on every attempt", ""),
+                        }
+                    }
+                    _ => ctx.rep.disagree("witness.driver", json!({"witness": name}), "", &w),
+                }
+            }
+            // a store with a log: the log step of `put_durable` misses, a plain put misses, the log step
+            // appends, the plain put's write section finds the entry; the apply step hits the fast path
+            let dchecker = vec![Op::Ex(e1), Op::DelD(e1), Op::Ex(e1), Op::Get(e1), Op::Scan(Key::of("emb:")), Op::DelD(e1)];
+            let dprogs = vec![vec![Op::PutD(e1, g(1))], vec![Op::Put(e1, g(2))], dchecker.clone()];
+            ctx.case("directed.index.durable_and_plain_first_put", &dprogs, Some(SyncMode::Immediate), Some(&[0, 1, 0, 1, 0, 0, 0, 1, 1, 2, 2, 2, 2, 2, 2, 2, 2, 2, 2]), &mut r, true);
+            // neighbours, by seeded schedules at the granularity of the index's locks: three first
+            // writers; a writer and a deleter; first writers of two keys; the durable mix
+            let e2 = Key::new(Cls::E, 2);
+            let neighbours: Vec<(&str, Vec<Vec<Op>>, bool)> = vec![
+                ("three_first_puts", vec![vec![Op::Put(e1, g(1))], vec![Op::Put(e1, g(2))], vec![Op::Put(e1, g(3))]], false),
+                ("first_puts_and_delete", vec![vec![Op::Put(e1, g(1)), Op::Del(e1)], vec![Op::Put(e1, g(2))], vec![Op::Put(e1, g(3)), Op::Ex(e1)]], false),
+                ("first_puts_of_two_keys", vec![vec![Op::Put(e1, g(1)), Op::Put(e2, g(2))], vec![Op::Put(e2, g(3)), Op::Put(e1, g(4))], vec![Op::Scan(Key::of("emb:")), Op::Del(e2)]], false),
+                ("durable_and_plain_first_puts", vec![vec![Op::PutD(e1, g(1))], vec![Op::Put(e1, g(2))], vec![Op::PutD(e1, g(3)), Op::DelD(e1)]], true),
+            ];
+            for (name, progs, durable) in neighbours {
+                for _ in 0..(4 * scale) {
+                    // the concurrent part under a seeded schedule; a second run appends the checker
+                    ctx.case(&format!("directed.index.{name}"), &progs, if durable { Some(SyncMode::Manual) } else { None }, None, &mut r, true);
+                }
+            }
+            // seeded programs on two contended emb: keys (first puts, re-creations after deletes, readers)
+            let mut gen = Gen { next_tag: 0 };
+            let mut r = root.fork("random.index_first_puts");
+            for i in 0..(60 * scale) {
+                let nthreads = 2 + (i % 4) as usize;
+                let progs = gen.progs(&mut r, false, &[Cls::E], nthreads);
+                ctx.case("random.index_first_puts", &progs, None, None, &mut r, true);
+            }
+            ctx.index_steps = false;
+        }
+        // (b) the race itself
+        let rounds = (40 * scale) as usize;
+        let mut id = 100u32;
+        for writers in [2usize, 3, 4, 6, 8] {
+            for mode in [StressMode::Fresh, StressMode::Recreate, StressMode::DurableStore] {
+                ctx.stress(mode, writers, rounds, id);
+                id += rounds as u32 + 1;
+            }
+        }
+    }
+
+    // ---- stores built WITH a Bloom filter (`with_bloom_filter`, `with_bloom_and_instrumentation`,
     //      `open_durable_with_bloom`; recovered with `recover_with_bloom`), directed (deterministic for
     //      every seed).  `get` / `exists` answer "absent" from the filter alone, `scan` reads the slabs:
     //      the guard is that a put tells the filter about its key BEFORE the key becomes visible.  The
@@ -2424,6 +2832,9 @@ fn main() {
         "bloom:reader_inside_first_put", "bloom:random_case_with_reader_inside_first_put",
         "crash:while_a_durable_write_holds_the_mutex", "crash:nobody_inside_a_durable_write",
         "oracle:crash_mid_run_recovers_live_or_inflight_write_completed",
+        "oracle:one_live_id_per_key_and_deleted_key_gone",
+        "stress:fresh_key", "stress:key_deleted_before", "stress:fresh_key_durable_store",
+        "stress:writers:2", "stress:writers:3", "stress:writers:4", "stress:writers:6", "stress:writers:8",
     ]
     .iter()
     .map(|s| s.to_string())
